@@ -118,6 +118,8 @@ impl<T> vstd::std_specs::core::IndexSpecImpl<SymbolIndex> for SymbolVec<T> {
 //@impl PRD /^impl < T > ProdVec < T >/
 //@  fn new ret=r
 //@  |                 ensures r.0@.len() == 0,
+//@  fn get ret=r
+//@  |                 ensures r == (if index.0 < self.0@.len() { Some(&self.0@[index.0 as int]) } else { None::<&T> }),
 //@  fn push
 //@  |                 ensures final(self).0@ == old(self).0@.push(value),
 //@end
@@ -136,7 +138,14 @@ impl<T> vstd::std_specs::core::IndexSpecImpl<SymbolIndex> for SymbolVec<T> {
 //@struct GRM Production fields=nonterminal,rhs
 //@end
 /// the resolved symbols of a production's right-hand side (what Production::rhs_symbols returns; R-XBODY: assumed pure)
-pub uninterp spec fn rhs_syms(p: &Production) -> Seq<SymbolIndex>;
+pub open spec fn rhs_syms(p: &Production) -> Seq<SymbolIndex> { p.rhs@.map_values(|a: ResolvingAssignment| res_sym(&a)) }
+/// the resolved symbol of one right-hand-side element (what res_symbol returns; it panics on an unresolved element, so its
+/// result is an uninterpreted function of the element)
+pub uninterp spec fn res_sym(a: &ResolvingAssignment) -> SymbolIndex;
+//@allow external_body res_symbol (unwrap_or_else(|| panic!(..)) on the resolved index): result taken as an uninterpreted function of the element; that every right-hand-side element IS resolved when the table is built is not proved
+//@fn GRM res_symbol ret=r xbody
+//@  |     ensures r == res_sym(assign),
+//@end
 //@impl GRM /^impl Production \{?$|^impl Production$/ has=rhs_symbols
 //@  fn rhs_symbols ret=r xbody
 //@  |         ensures r@ == rhs_syms(self), r@.len() == self.rhs@.len(),
@@ -601,7 +610,6 @@ pub assume_specification<'a, T: 'a + Ord + Copy, A: Allocator + Clone, I: IntoIt
 //@  |         ensures r@ == rhs_syms(&self.productions.0@[prod.0 as int]), r@.len() == self.productions.0@[prod.0 as int].rhs@.len(),
 //@end
 
-//@allow external_body LRItem::symbol_at_position (`?` on get(..), res_symbol which panics on an unresolved symbol): result stated through rhs_syms, ASSUMED
 //@impl TBL /^impl LRItem/ has=with_follow
 //@  fn with_follow ret=r
 //@  |         requires prod.0 < grammar.productions.0@.len(),
@@ -610,7 +618,7 @@ pub assume_specification<'a, T: 'a + Ord + Copy, A: Allocator + Clone, I: IntoIt
 //@  |             follow_of(&r) == follow@, // [C01]
 //@  before 1 "LRItem {"
 //@  |         broadcast use axiom_follow_of;
-//@  fn symbol_at_position ret=r xbody
+//@  fn symbol_at_position ret=r
 //@  |         ensures r == (if self.prod.0 < grammar.productions.0@.len() && self.position < rhs_syms(&grammar.productions.0@[self.prod.0 as int]).len() {
 //@  |                 Some(rhs_syms(&grammar.productions.0@[self.prod.0 as int])[self.position as int]) } else { None::<SymbolIndex> }),
 //@end
